@@ -46,9 +46,11 @@ SUBSET = [None, "chunked", "identity", "identity;q=0", "chunked;q=0", "gzip", "i
           "chunked;q=0.3, identity;q=0.7", "trailers", "chunked;q=abc"]
 
 
-def line(ver, st, ln, thr, te, head=0, up="~", tename="TE"):
+def line(ver, st, ln, thr, te, head=0, up="~", tename="TE", boxed=False):
     body = "@%d" % (3 if ln is None else ln)
     ops = "-" if thr is None else "T%d" % thr
+    if boxed:                    # Response::boxed() after the threshold was chosen: the same response
+        ops = "B" if thr is None else ops + ";B"
     rh = "-" if te is None else hdrs([(tename, te)])
     return "rp new %d - %s %s %s %s %s %d %s -" % (st, body, "-" if ln is None else str(ln), ops, ver, rh, head, up)
 
@@ -72,10 +74,12 @@ def gen(tier, rng):
             for te in SUBSET:
                 for ln, thr in [(32767, None), (32768, None), (32769, None), (32768, 32769), (40000, MAXU)]:
                     yield line(ver, st, ln, thr, te), {"variant": "default-threshold"}
+                    yield line(ver, st, ln, thr, te, boxed=True), {"variant": "boxed"}
                 for ln, thr in [(None, 5), (4, 5), (6, 5)]:
                     yield line(ver, st, ln, thr, te, head=1), {"variant": "head"}
                     yield line(ver, st, ln, thr, te, up=hx("websocket")), {"variant": "upgrade"}
                     yield line(ver, st, ln, thr, te, tename="te"), {"variant": "lowercase-name"}
+                    yield line(ver, st, ln, thr, te, boxed=True), {"variant": "boxed"}
                     if te is not None:
                         rh = hdrs([("Te", te), ("TE", "identity;q=1, chunked;q=0")])
                         yield ("rp new %d - @%d %s T%d %s %s 0 ~ -" % (st, 3 if ln is None else ln, "-" if ln is None else ln, thr, ver, rh),
